@@ -19,7 +19,7 @@ def lang_jobs(grammars, tier, n_quick=5, n_thorough=7, algos_quick=("lane",), al
             continue
         for algo in algos:
             for s in starts:
-                out.append(e1.Job(g, frozenset(), algo, s, n, list(kinds)))
+                out.append(e1.Job(g, frozenset(), algo, s, max(n, getattr(g, "min_n", 0)), list(kinds)))
     return out
 
 
